@@ -3,11 +3,11 @@ package main
 func init() {
 	register(Harness{
 		Prop: "C08", Pkg: "storage/mem", Func: "VerifC08Limits",
-		Quick:    [][]int64{{3, 2, 0}, {3, 0, 1}, {3, 1, 1}, {3, 2, 2}},
-		Thorough: [][]int64{{4, 2, 0}, {3, 0, 1}, {3, 1, 1}, {3, 2, 2}, {3, 1, 0}, {3, 0, 2}, {3, 1, 2}, {3, 2, 1}},
+		Quick:    [][]int64{{3, 2, 0, 0}, {3, 0, 1, 0}, {3, 1, 1, 0}, {3, 2, 2, 0}, {3, 3, 0, 3}},
+		Thorough: [][]int64{{4, 2, 0, 0}, {3, 0, 1, 0}, {3, 1, 1, 0}, {3, 2, 2, 0}, {3, 1, 0, 0}, {3, 0, 2, 0}, {3, 1, 2, 0}, {3, 2, 1, 0}, {3, 3, 0, 3}, {3, 2, 1, 2}},
 		Unwind:   40,
 		Desc:     "k symbolic operations (deliver with a size from {400,700,1100} / remove oldest / purge) over two mailboxes on mem.New with a mailbox cap and/or a store size limit (real maxSizeEnforcer goroutine), compared after every operation with a reference model that evicts oldest-first",
-		Bounds:   "params (k operations, cap (0 = none), maxkb (0 = none)); symbolic: operation, mailbox, size",
+		Bounds:   "params (k operations, cap (0 = none), maxkb (0 = none), pre: concrete prelude of that many 100-byte messages in the first mailbox); symbolic: operation, mailbox, size, which of the two oldest messages is removed",
 		Assumes:  []string{"goroutines are scheduled run-to-block (the enforcer runs when the client blocks on its channels): one schedule per history; other interleavings belong to C09"},
 	})
 }
